@@ -1,5 +1,6 @@
 import CryoCat.Drv.Proto
 import CryoCat.Model.C08
+import CryoCat.Model.C08_Check
 /-! C08 driver: executes `CryoCat.C08.trace` (the defs the theorems are about) at `Float`.
 Cells travel as IEEE-754 bit patterns. -/
 namespace CryoCat.Drv.C08
@@ -65,8 +66,49 @@ def partsOf : List (Op Float) → Motl Float → List Json
   | [], _ => []
   | op :: ops, l => partsJson op l :: partsOf ops (step fill Nat.toFloat op l)
 
+/-! ### `check`: the verified checkers (`Model/C08_Check.lean`) on the REAL outputs -/
+
+/-- the same cell = the same IEEE bit pattern (the harness sends one pattern for every NaN) -/
+def eqvBits (a b : Float) : Bool := a.toBits == b.toBits
+
+def parseStrs (j : Json) : Option (List String) :=
+  match j with
+  | Json.arr a => a.toList.mapM (fun (c : Json) => c.getStr?.toOption)
+  | _ => none
+
+/-- one observed step: the table, all parts of a split, offset certificates, and every column-name list seen -/
+def parseObs (j : Json) : Option (Obs Float × List (List String)) := do
+  let rows ← getVal? j "rows" >>= parseRows
+  let cols ← getVal? j "cols" >>= parseStrs
+  let parts ← match getArr? j "parts" with
+    | some a => a.toList.mapM (fun x => getVal? x "rows" >>= parseRows)
+    | none => some []
+  let pcols ← match getArr? j "parts" with
+    | some a => a.toList.mapM (fun x => getVal? x "cols" >>= parseStrs)
+    | none => some []
+  let hints ← match getArr? j "hints" with
+    | some a => a.toList.mapM parseVals
+    | none => some []
+  pure ({ out := rows, parts := parts, hints := hints }, cols :: pcols)
+
+def verdicts : List (Op Float × Obs Float × List (List String)) → Motl Float → List Json
+  | [], _ => []
+  | (op, o, cols) :: rest, l =>
+    let schema := cols.all checkSchema
+    let failed := (stepClauses eqvBits fill Nat.toFloat op l o).filter (fun c => !c.2) |>.map (·.1)
+    Json.mkObj [("schema", Json.bool schema), ("ok", Json.bool (checkStep eqvBits fill Nat.toFloat op l o)),
+                ("failed", Json.arr (failed.map Json.str).toArray)] :: verdicts rest o.out
+
 def handle (j : Json) : Json :=
   match getStr? j "op" with
+  | some "check" =>
+    match getVal? j "base" >>= parseRows, getArr? j "ops" >>= (fun a => a.toList.mapM parseOp),
+          getArr? j "obs" >>= (fun a => a.toList.mapM parseObs) with
+    | some base, some ops, some obs =>
+      let steps := ops.zip obs
+      Json.mkObj [("verdicts", Json.arr (verdicts steps base).toArray),
+                  ("run_ok", Json.bool (checkRun eqvBits fill Nat.toFloat (steps.map (fun s => (s.1, s.2.1))) base))]
+    | _, _, _ => err "bad-args"
   | some "history" =>
     match getVal? j "base" >>= parseRows, getArr? j "ops" >>= (fun a => a.toList.mapM parseOp) with
     | some base, some ops =>
